@@ -22,6 +22,7 @@ Shapes == <<
   <<R(1), Cr(2, <<ByName(1)>>, TRUE), R(3)>>,                                                   \* 11 generate
   <<R(1), R(2), R(3), R(4), R(5), Cr(6, <<ByName(5), ByName(1)>>, FALSE)>>,                     \* 12
   <<R(1), R(2), CrA(3, <<ByName(1), ByName(2)>>, <<ById(1), ByName(2)>>, FALSE)>>,              \* 13 alias by the other identifier
-  <<R(1), CrA(2, <<ByName(1)>>, <<ByName(9)>>, FALSE), R(3)>>                                   \* 14 alias for a missing rule
+  <<R(1), CrA(2, <<ByName(1)>>, <<ByName(9)>>, FALSE), R(3)>>,                                  \* 14 alias for a missing rule
+  <<R(1), Cr(2, <<ByName(1)>>, TRUE), Cr(3, <<ById(1)>>, FALSE), R(4)>>                         \* 15 referrers that disagree on generation
 >>
 =============================================================================
